@@ -76,7 +76,8 @@ def run(case):
                 F.append(Finding("oracle", "hilbert_analytic_signal", cc, f"augmented data differs from scipy analytic signal by {relerr(D, h):.2e}"))
     elif cls == "ExtendedEOF":
         E = embed(Dref, case["tau"], case["embedding"])
-        E = E - E.mean(axis=0)
+        if case["center"]:
+            E = E - E.mean(axis=0)
         # column order of the model's matrix is an internal choice: compare Gram spectra and shapes
         if D.shape != E.shape:
             F.append(Finding("oracle", "eeof_embedded_shape", cc, f"decomposed matrix {D.shape} vs delay-embedded reference {E.shape}"))
@@ -143,7 +144,7 @@ def run(case):
     if errEig > (1e-8 if exact else 1e-4):
         F.append(Finding("oracle", "expvar_eigen", cc, f"|cov C - C diag(ev)| rel {errEig:.2e}"))
     # ratios against the total variance of the same anomalies (centring on)
-    if case["center"] or cls == "ExtendedEOF":
+    if case["center"]:
         tr = float(np.trace(cov).real)
         if tr > 0:
             ratio = np.asarray(m.explained_variance_ratio().values)
